@@ -218,6 +218,70 @@ def cases(tier):
         sp = f"@guppy\ndef inner() -> {t}:\n    return {lit_v}\n\n@guppy\ndef outer(w: int) -> {t}:\n    return inner()\n"
         if t != "nat":       # a nat value cannot be written as a comptime literal (42 is an int, nat(42) is a call)
           out.append((f"dependent-comptime-forwarded[{t}]", g, sp, [f'result("r", outer({lit_v}, z))'], ['result("r", outer(z))'], "z: int", [("int",)]))
+    # --- T15 instantiation TYPE x the way the instantiated type reaches a function type: None (a unit row), tuples (several
+    #         wires unless the row is preserved), non-copyable arrays and structs; as a bare result, through a monomorphised
+    #         sibling parameter, through a Callable parameter, through an explicit type application inside another generic
+    #         function, captured by a closure; with both-sided and one-sided (Copy only / Drop only) bounds
+    XS = {"none": ("None", "None", [], True), "int": ("a", "int", ['result("r", r)'], True),
+          "tuple": ("(a, 2)", "tuple[int, int]", ['result("r0", r[0])', 'result("r1", r[1])'], True),
+          "tuple1": ("(a,)", "tuple[int]", ['result("r0", r[0])'], True),
+          "array": ("array(a, 2)", "array[int, 2]", ['result("r0", r[0])', 'result("r1", r[1])'], False),
+          "box": ("Box(a)", "Box[int]", ['result("rv", r.v)'], True),
+          "boxarr": ("Box(array(a, 2))", "Box[array[int, 2]]", ['result("rv", r.v[1])'], False)}
+    CAL = "from collections.abc import Callable\n\n"
+    for xn, (xlit, xty, obs, copyable) in XS.items():
+        own = "" if copyable else " @owned"
+        done = ['result("done", 1)']
+        shapes = {
+            "bare-result": ("@guppy\ndef ident[T](x: T @owned) -> T:\n    return x\n",
+                            f"@guppy\ndef ident(x: {xty}{own}) -> {xty}:\n    return x\n", f"ident({xlit})", f"ident({xlit})"),
+            "beside-comptime-parameter": ("@guppy\ndef pick[T](x: T @owned, c: bool @comptime) -> T:\n    return x\n",
+                                          f"@guppy\ndef pick(x: {xty}{own}) -> {xty}:\n    return x\n", f"pick({xlit}, True)", f"pick({xlit})"),
+            "callable-parameter": (CAL + (f"@guppy\ndef apply[T: (Copy, Drop)](f: Callable[[T], T], x: T) -> T:\n    return f(x)\n\n" if copyable else
+                                          f"@guppy\ndef apply[T](f: Callable[[T @owned], T], x: T @owned) -> T:\n    return f(x)\n\n") +
+                                   f"@guppy\ndef gfun(x: {xty}{own}) -> {xty}:\n    return x\n",
+                                   CAL + f"@guppy\ndef apply(f: Callable[[{xty}{own}], {xty}], x: {xty}{own}) -> {xty}:\n    return f(x)\n\n"
+                                   f"@guppy\ndef gfun(x: {xty}{own}) -> {xty}:\n    return x\n", f"apply(gfun, {xlit})", f"apply(gfun, {xlit})"),
+            "callable-result": (CAL + f"@guppy\ndef make[T](f: Callable[[], T]) -> T:\n    return f()\n\n"
+                                f"@guppy\ndef mk() -> {xty}:\n    a = 5\n    return {xlit}\n",
+                                CAL + f"@guppy\ndef make(f: Callable[[], {xty}]) -> {xty}:\n    return f()\n\n"
+                                f"@guppy\ndef mk() -> {xty}:\n    a = 5\n    return {xlit}\n", "make(mk)", "make(mk)"),
+            "explicit-application-inside-generic": (
+                "@guppy\ndef ident[S](x: S @owned) -> S:\n    return x\n\n@guppy\ndef wrap[T](x: T @owned) -> T:\n    return ident[T](x)\n",
+                f"@guppy\ndef ident(x: {xty}{own}) -> {xty}:\n    return x\n\n@guppy\ndef wrap(x: {xty}{own}) -> {xty}:\n    return ident(x)\n",
+                f"wrap({xlit})", f"wrap({xlit})"),
+        }
+        if copyable:
+            shapes["captured-by-closure"] = (
+                "@guppy\ndef outer[T: (Copy, Drop)](x: T, k: int) -> T:\n    def inner(j: int) -> int:\n        y = x\n        return j + 1\n"
+                "    result(\"i\", inner(k))\n    return x\n",
+                f"@guppy\ndef outer(x: {xty}, k: int) -> {xty}:\n    def inner(j: int) -> int:\n        y = x\n        return j + 1\n"
+                "    result(\"i\", inner(k))\n    return x\n",
+                f"outer({xlit}, 3)", f"outer({xlit}, 3)")
+            shapes["copy-only-bound-callable"] = (
+                CAL + f"@guppy\ndef twice[T: Copy](f: Callable[[T], T], x: T) -> tuple[T, T]:\n    y = f(x)\n    return y, y\n\n"
+                f"@guppy\ndef gfun(x: {xty}) -> {xty}:\n    return x\n",
+                CAL + f"@guppy\ndef twice(f: Callable[[{xty}], {xty}], x: {xty}) -> tuple[{xty}, {xty}]:\n    y = f(x)\n    return y, y\n\n"
+                f"@guppy\ndef gfun(x: {xty}) -> {xty}:\n    return x\n", f"twice(gfun, {xlit})[1]", f"twice(gfun, {xlit})[1]")
+            shapes["copy-only-bound-explicit-application"] = (
+                "@guppy\ndef ident[S: Copy](x: S) -> S:\n    return x\n\n@guppy\ndef wrap[T: Copy](x: T) -> tuple[T, T]:\n    y = ident[T](x)\n    return y, y\n",
+                f"@guppy\ndef ident(x: {xty}) -> {xty}:\n    return x\n\n@guppy\ndef wrap(x: {xty}) -> tuple[{xty}, {xty}]:\n    y = ident(x)\n    return y, y\n",
+                f"wrap({xlit})[0]", f"wrap({xlit})[0]")
+        shapes["drop-only-bound-callable"] = (
+            CAL + f"@guppy\ndef once[T: Drop](f: Callable[[], T]) -> int:\n    y = f()\n    return 1\n\n@guppy\ndef mk() -> {xty}:\n    a = 5\n    return {xlit}\n",
+            CAL + f"@guppy\ndef once(f: Callable[[], {xty}]) -> int:\n    y = f()\n    return 1\n\n@guppy\ndef mk() -> {xty}:\n    a = 5\n    return {xlit}\n",
+            None, None)
+        # must be rejected (a Drop-only variable is not copyable): the textual copy at a non-copyable type is
+        shapes["drop-only-bound-duplicated"] = (
+            CAL + f"@guppy\ndef dup[T: Drop](f: Callable[[], T]) -> tuple[T, T]:\n    y = f()\n    return y, y\n\n@guppy\ndef mk() -> {xty}:\n    a = 5\n    return {xlit}\n",
+            CAL + f"@guppy\ndef dup(f: Callable[[], {xty}]) -> tuple[{xty}, {xty}]:\n    y = f()\n    return y, y\n\n@guppy\ndef mk() -> {xty}:\n    a = 5\n    return {xlit}\n",
+            f"dup(mk)[0]", f"dup(mk)[0]")
+        for sn, (g, sp, cg, cs) in shapes.items():
+            if cg is None:
+                bg = bs = ['result("n", once(mk))'] + done
+            else:
+                bg, bs = [f"r = {cg}"] + obs + done, [f"r = {cs}"] + obs + done
+            out.append((f"instantiation-type:{sn}[{xn}]", g, sp, bg, bs, "a: int", [("int",)]))
     # --- T10 generic calls generic with different parameter order
     for t, n in itertools.product(["int", "float"], [1, 3]):
         g = ("@guppy\ndef inner[n: nat, T: Copy](xs: array[T, n], i: int) -> T:\n    return xs[i]\n\n"
@@ -254,10 +318,19 @@ def eval_case(case):
     name, g, sp, body_g, body_s, sig, types = case
     res = {"bad": None, "runs": 0, "cls": ""}
     hs = []
-    for label, src in (("generic", program(g, body_g, sig)), ("specialised", program(sp, body_s, sig))):
+    # the textual copy first: if IT is rejected the template says nothing about generics
+    for label, src in (("specialised", program(sp, body_s, sig)), ("generic", program(g, body_g, sig))):
         o, mod = gload.run_src(src)
+        if label == "specialised" and "drop-only-bound-duplicated" in name:
+            continue
         if o.kind == "crash":
             return {"bad": f"{label} version crashes the compiler: {o.exc}", "cls": "compiler-crash", "runs": 0}
+        if "drop-only-bound-duplicated" in name:
+            # the generic function copies a value of a type variable that is only known to be droppable: it must be rejected,
+            # whatever it is instantiated with (its textual copy at a copyable type is fine, at a non-copyable one rejected)
+            if o.ok:
+                return {"bad": "generic function that returns a value of its Drop-only type variable twice was accepted", "cls": "generic-accepted", "runs": 0}
+            return {"bad": None, "runs": 1, "cls": ""}
         if not o.ok:
             if label == "specialised":
                 return {"bad": None, "runs": 0, "cls": "skipped", "why": f"specialised copy rejected: {o.title}"}
@@ -267,6 +340,7 @@ def eval_case(case):
             return {"bad": f"{label} version gives invalid HUGR: {v[:300]}", "cls": "invalid-hugr", "runs": 0}
         hs.append(o.package.modules[0])
     doms = [GRID[t] for t in types[0]]
+    hs.reverse()            # [generic, specialised]
     for vals in itertools.product(*doms):
         outs = []
         for h in hs:
@@ -334,7 +408,10 @@ def part_b(ctx):
             skipped += 1
             continue
         if r["bad"]:
-            ctx.violation(f"b:{r['cls']}:{c[0].split('[')[0]}", f"{c[0]}: {r['bad']}", {"part": "b", "case": c[0]})
+            fam = c[0].split("[")[0]
+            if fam.startswith("instantiation-type:"):
+                fam += ":" + c[0].split("[")[1].rstrip("]")      # the instantiated type is part of the defect class here
+            ctx.violation(f"b:{r['cls']}:{fam}", f"{c[0]}: {r['bad']}", {"part": "b", "case": c[0]})
         else:
             ok += 1
             runs += r["runs"]
